@@ -21,14 +21,14 @@ def known_ids():
 #  count monitors: C01 C02 C04 C05 C06 C07 C08 C09 C18(record part)
 # ----------------------------------------------------------------------------------------
 MIX = {
-    'C01': [('random', 4), ('tie', 1), ('quota', 1), ('coalition', 1), ('chain', 1), ('bullet', 2), ('exact', 1), ('sparse', 2), ('bigm', 1), ('unanimous', 1)],
+    'C01': [('random', 4), ('tie', 1), ('quota', 1), ('coalition', 1), ('chain', 1), ('bullet', 2), ('exact', 1), ('sparse', 2), ('bigm', 1), ('unanimous', 1), ('thirds', 1)],
     'C02': [('random', 3), ('chain', 3), ('quota', 1), ('bigm', 2), ('sparse', 1), ('neartie', 1), ('unanimous', 1)],
-    'C04': [('quota', 3), ('exact', 3), ('random', 2), ('tie', 1), ('sparse', 1), ('bigm', 1)],
-    'C05': [('coalition', 4), ('random', 2), ('unanimous', 1), ('sparse', 1)],
-    'C06': [('chain', 3), ('random', 3), ('quota', 1), ('bigm', 1), ('sparse', 1), ('surplustie', 1), ('neartie', 2)],
+    'C04': [('quota', 3), ('exact', 3), ('random', 2), ('tie', 1), ('sparse', 1), ('bigm', 1), ('thirds', 2)],
+    'C05': [('coalition', 4), ('random', 2), ('unanimous', 1), ('sparse', 1), ('hiddenpartner', 2)],
+    'C06': [('chain', 3), ('random', 3), ('quota', 1), ('bigm', 1), ('sparse', 1), ('surplustie', 1), ('neartie', 2), ('thirds', 2)],
     'C07': [('tie', 3), ('prior', 2), ('reversal', 1), ('surplustie', 2), ('writein', 2), ('random', 2), ('quota', 1), ('bullet', 1), ('coalition', 1), ('sparse', 1), ('neartie', 1)],
     'C08': [('random', 4), ('tie', 1), ('quota', 1), ('unanimous', 1)],
-    'C09': [('random', 4), ('tie', 1), ('coalition', 1), ('bullet', 2), ('exact', 1), ('sparse', 2)],
+    'C09': [('random', 4), ('tie', 1), ('coalition', 1), ('bullet', 2), ('exact', 1), ('sparse', 2), ('thirds', 1), ('hiddenpartner', 1)],
     'C18': [('random', 4), ('tie', 1), ('quota', 1), ('sparse', 1), ('writein', 1)],
 }
 RULESET = {
@@ -38,14 +38,19 @@ RULESET = {
 NPROFILES = {'quick': 110, 'thorough': 1500}
 
 
+_SCHED = {}
+
+
 def pick_shape(rng, mix):
-    tot = sum(w for _, w in mix)
-    x = rng.random() * tot
-    for s, w in mix:
-        x -= w
-        if x <= 0:
-            return s
-    return mix[-1][0]
+    """stratified: the shapes of a mix come round in proportion to their weights (a shuffled schedule per mix), so that
+    every shape is exercised in every run instead of being left to chance"""
+    key = tuple(mix)
+    sch = _SCHED.get(key)
+    if not sch:
+        sch = [s for s, w in mix for _ in range(int(w))]
+        rng.shuffle(sch)
+        _SCHED[key] = sch
+    return sch.pop()
 
 
 def make_profile(rng, shape, prop, rule_hint=None):
@@ -267,9 +272,14 @@ def configs_for(rule, rng, shape, all_=False):
                 (dict(rule=rule, arithmetic=rng.choice(['guarded', 'rational']), integer_quota=True), None) if rng.random() < 0.5 else
                 (dict(rule=rule, arithmetic='guarded', precision=3, guard=2, integer_quota=True), None),
                 (dict(rule=rule, arithmetic=rng.choice(['integer', 'fixed']), precision=2), None)] + gen.configs(rule, rng)
+    if shape == 'thirds' and rule == 'wigm':
+        return [(dict(rule=rule, arithmetic='guarded', precision=3, guard=2, integer_quota=True), None),
+                (dict(rule=rule, arithmetic='guarded', precision=2, guard=3, integer_quota=True), None),
+                (dict(rule=rule, arithmetic='fixed', precision=3, integer_quota=True), None),
+                (dict(rule=rule, arithmetic='rational', integer_quota=True), None)]
     if shape == 'neartie' and rule == 'wigm':
         return [(dict(rule=rule, arithmetic='guarded', precision=p, guard=g_), None) for p, g_ in ((3, 2), (2, 3), (4, 2))]
-    if shape == 'sparse' and rule == 'wigm':
+    if shape in ('sparse', 'hiddenpartner') and rule == 'wigm':
         return [(dict(rule=rule, arithmetic='fixed', precision=3, defeat_batch='zero'), None), (dict(rule=rule, arithmetic='guarded', precision=3, guard=2, defeat_batch='zero'), None)] + gen.configs(rule, rng)
     if shape != 'exact':
         return gen.configs(rule, rng, all_=all_, k=(3 if rule == 'wigm' else 2 if rule in ('meek', 'warren', 'meek-prf', 'qpq') else 1))
@@ -443,6 +453,15 @@ def check_counts(prop, tier):
         pr = make_profile(rng, shape, prop)
         if (prop == 'C08' and rng.random() < 0.4) or (prop == 'C02' and rng.random() < 0.2) or (prop == 'C04' and rng.random() < 0.12):
             pr = gen.randprofile(rng, wd=True, eq=True, maxc=6, maxlines=8)
+        if prop == 'C18' and i % 3 == 0 and pr['nc'] >= 3:
+            # a ballot file may name two candidates alike: every one of them still has his own line in the record
+            nm = [drive.cname(c) for c in range(1, pr['nc'] + 1)]
+            a, b = rng.sample(range(pr['nc']), 2)
+            nm[a] = nm[b] = 'John Smith'
+            if pr['nc'] >= 5 and rng.random() < 0.5:
+                c2 = rng.choice([x for x in range(pr['nc']) if x not in (a, b)])
+                nm[c2] = 'John Smith'
+            pr = dict(pr, names=nm)
         blt = drive.mkblt(**pr)
         for rule in rules:
             if pr.get('eqlines') and rule not in ('meek', 'warren') and prop != 'C04':
@@ -454,6 +473,11 @@ def check_counts(prop, tier):
                 R.cov['evaluations'] += 1
                 if T['outcome'] == 'reject':
                     skipped['rejected:' + T['exc'][:40]] += 1
+                    continue
+                if prop == 'C01' and T.get('wd') is not None and [c for c in range(1, pr['nc'] + 1) if T['wd'][c - 1]] != sorted(pr['withdrawn']):
+                    # the oracle for `withdrawn' is the file, not what the library read back from it
+                    R.violation('C01: the election treats %s as withdrawn, the file withdraws %s (rule %s)' % (
+                        [c for c in range(1, pr['nc'] + 1) if T['wd'][c - 1]], sorted(pr['withdrawn']), rule), dict(blt=blt, options=opts, lowprec=lp))
                     continue
                 if T['outcome'] == 'budget':
                     if rule in ('meek', 'warren') and opts.get('arithmetic') == 'rational':
